@@ -39,7 +39,8 @@ EXPLANATION = (
     "(R1b) every lazyRefs member container changed during the per-attribute pass is emptied in checkAnInvAttr before the calls that change it. (R4b) every instance that enters the cache is queued for inverse resolution under the same conditions, and the queue is drained (entry taken, removed, resolved) under `no instance is half-read`, with the depth counter bracketing exactly the attribute reads. (R8) a parameter whose member is created on demand is a reference or pointer. (R9) clients of the recursive super/subtype iterators take elements either through current() or through the value of next(), never both. Not decided: that the resulting sets equal the true referrers for every population (needs the run-time population)."
     " (R10) every loop of lazyRefs whose body inserts into a container (the subtype closure of the inverted entity, the inverse attributes of the supertypes, the candidate referrers) runs until its iterator is exhausted: no break, return or goto leaves it from the body."
     " (R11) in the search loops of lazyRefs every criterion (conjunct) of a multi-criteria match mentions the loop variable or a value computed from it: no criterion is the same for every element."
-    " (R12) aggregate-or-single storage of an inverse attribute is decided by IsAggrType() of the inverse attribute itself; the referrer's attribute is found by the descriptor the dictionary resolved for the inverse attribute, so inherited inverted attributes match.")
+    " (R12) aggregate-or-single storage of an inverse attribute is decided by IsAggrType() of the inverse attribute itself; the referrer's attribute is found by the descriptor the dictionary resolved for the inverse attribute, so inherited inverted attributes match."
+    " (R13) a pointer into function-static storage (least fixed point of `returns its static buffer / static string`; lazyInstMgr::typeFromFile via sectionReader::getDelimitedKeyword) is compared or copied by the lazy loader, never stored in a container or member.")
 
 
 def lazyfn(prog, name):
@@ -662,6 +663,88 @@ def r12_inverse_kind_and_lookup(prog, res):
             "the inverted entity inherits from a supertype is owned by that supertype and is never matched - the inverse attribute stays empty")
 
 
+def r13_no_static_scratch_kept(prog, res):
+    """Several look-ups return a pointer into function-static storage (`static std::string str; ... return str.c_str();` in
+    sectionReader::getDelimitedKeyword, reached through lazyInstMgr::typeFromFile): the text is valid until the next call.  Such a
+    pointer may be compared or copied (`new std::string( p )`), but not *kept*: stored in a container or a member it aliases whatever
+    the buffer holds later - the candidate filter of the inverse attributes then compares every referrer with the keyword that was
+    read last.  `returns static scratch` is a least fixed point over the call graph; the rule looks at every function of cllazyfile."""
+    from engines import call_args
+    scratch = {}
+    fns = [f for f in prog.all_functions() if f.component != "test"]
+    changed = True
+    while changed:
+        changed = False
+        for f in fns:
+            if f.key in scratch:
+                continue
+            rt = f.tyname(f.raw.get("ret")) if isinstance(f.raw.get("ret"), int) else ""
+            if "char" not in rt or "*" not in rt:
+                continue
+            for r in f.walk():
+                if r["k"] != "Return" or not r.get("ch") or r["ch"][0] is None:
+                    continue
+                e = strip(r["ch"][0])
+                while e is not None and e["k"] in ("Cast", "Paren") and e.get("ch"):
+                    e = strip(e["ch"][0])
+                why = None
+                if e is not None and e["k"] == "Ref" and e.get("dk") == "staticlocal":
+                    why = "returns its static buffer `%s`" % e["n"]
+                elif e is not None and e["k"] == "Call" and (e.get("fn") or "").rsplit("::", 1)[-1] in ("c_str", "data") and e.get("ch"):
+                    o = strip(e["ch"][0])
+                    if o is not None and o["k"] == "Ref" and o.get("dk") == "staticlocal":
+                        why = "returns `%s.c_str()` of its static string" % o["n"]
+                elif e is not None and e["k"] == "Call" and e.get("fk") in scratch:
+                    why = "returns the result of %s()" % (e.get("fn") or "?")
+                if why:
+                    scratch[f.key] = "%s %s" % (f.name, why)
+                    changed = True
+                    break
+    res.info["r13_functions_returning_static_scratch"] = sorted(v.split(" ")[0] for v in scratch.values())
+    n = 0
+    for f in prog.all_functions():
+        if f.component != "cllazyfile":
+            continue
+        holders = {}
+        for a in f.walk():
+            if a["k"] == "Var" and a.get("ch") and a["ch"][0] is not None:
+                c = strip(a["ch"][0])
+                while c is not None and c["k"] == "Cast" and c.get("ch"):
+                    c = strip(c["ch"][0])
+                if c is not None and c["k"] == "Call" and c.get("fk") in scratch:
+                    holders[a["d"]] = (a, c)
+            if a["k"] == "Assign" and strip(a["ch"][0]) is not None and strip(a["ch"][0])["k"] == "Ref":
+                c = strip(a["ch"][1])
+                while c is not None and c["k"] == "Cast" and c.get("ch"):
+                    c = strip(c["ch"][0])
+                if c is not None and c["k"] == "Call" and c.get("fk") in scratch:
+                    holders[strip(a["ch"][0])["d"]] = (a, c)
+        if not holders:
+            continue
+        for d, (decl, call) in sorted(holders.items()):
+            n += 1
+            bad = None
+            for x in f.walk():
+                if x["k"] == "Call" and (x.get("fn") or "").rsplit("::", 1)[-1] in ("insert", "push_back", "emplace_back", "push_front", "emplace"):
+                    for arg in call_args(x):
+                        a0 = strip(arg)
+                        while a0 is not None and a0["k"] == "Cast" and a0.get("ch"):
+                            a0 = strip(a0["ch"][0])
+                        if a0 is not None and a0["k"] == "Ref" and a0.get("d") == d:
+                            bad = (x, "stored in a container by %s()" % (x.get("fn") or "?").rsplit("::", 1)[-1])
+                if x["k"] == "Assign" and strip(x["ch"][0]) is not None and strip(x["ch"][0])["k"] == "Member":
+                    r = strip(x["ch"][1])
+                    while r is not None and r["k"] == "Cast" and r.get("ch"):
+                        r = strip(r["ch"][0])
+                    if r is not None and r["k"] == "Ref" and r.get("d") == d:
+                        bad = (x, "assigned to the member `%s`" % expr_str(x["ch"][0])[:40])
+            res.add("R13.no_static_scratch_kept", "R13|%s|%s|%s" % (f.relfile(), f.name.split("::")[-1], decl.get("n") or d), f.where(bad[0]) if bad else f.where(decl), bad is None,
+                    "`%s` (pointer into static storage: %s) is only compared or copied" % (decl.get("n") or d, scratch[call["fk"]]) if bad is None else
+                    "`%s` points into static storage (%s) and is %s without a copy: after the next look-up every stored entry holds the text that "
+                    "was read last, so referrers are judged by the wrong entity type" % (decl.get("n") or d, scratch[call["fk"]], bad[1]))
+    res.floor("R13.no_static_scratch_kept", "locals of cllazyfile that receive a pointer into static storage", n, 1)
+
+
 def run(prog, res, tier):
     r9_iterator_protocol(prog, res)
     r8_accumulator_shared(prog, res)
@@ -674,3 +757,4 @@ def run(prog, res, tier):
     r10_collection_walk_exhaustive(prog, res)
     r11_match_depends_on_element(prog, res)
     r12_inverse_kind_and_lookup(prog, res)
+    r13_no_static_scratch_kept(prog, res)
